@@ -27,15 +27,15 @@ type fcase struct {
 	// Scenario "spaced": the spaced-losses history (runSpaced) on Prog "reuse"
 	// (two-shard producer) or "reuse1" (one-shard producer); Expected are the
 	// reference rows every round must deliver.
-	Scenario string   `json:"scenario,omitempty"`
+	Scenario string `json:"scenario,omitempty"`
 	// Scenario "boot": machines are lost while booting. The j-th machine (in the
 	// order of their first Worker.FuncLocations call, which startMachines makes
 	// as soon as a machine is Running) is killed at that call, for every j in
 	// Boot; BootVariant "before" (request never arrives) or "after" (handler ran,
 	// reply lost). The program is run and scanned as usual.
-	Boot        []int  `json:"boot,omitempty"`
-	BootVariant string `json:"boot_variant,omitempty"`
-	Expected []string `json:"expected,omitempty"`
+	Boot        []int    `json:"boot,omitempty"`
+	BootVariant string   `json:"boot_variant,omitempty"`
+	Expected    []string `json:"expected,omitempty"`
 }
 
 // cresult is what a child reports for one case.
